@@ -58,23 +58,34 @@ def main():
                 res["ran"].append(demo_cmd)
         finally:
             sh("git -C /repo worktree remove --force %s; rm -rf %s" % (wt, wt))
-    # run the checks against /repo with the patch applied
-    rc, out = sh("git -C /repo status --porcelain")
-    assert out.strip() == "", "/repo not clean: " + out
-    rc, out = sh("git -C /repo apply %s" % patch)
+    # run the checks against the patched tree.  Default: a scratch worktree of /repo with the patch applied, handed to the
+    # checks through VERIF_REPO (so /repo itself is never touched and other runs can use it meanwhile);
+    # --in-repo applies the patch to /repo itself and undoes it afterwards.
     res["checks"] = {}
+    in_repo = "--in-repo" in sys.argv
+    if in_repo:
+        rc, out = sh("git -C /repo status --porcelain")
+        assert out.strip() == "", "/repo not clean: " + out
+        target, undo = "/repo", "git -C /repo checkout -- . && git -C /repo clean -fdq"
+    else:
+        target = "/tmp/seedrun_" + name.replace("/", "_")
+        sh("git -C /repo worktree remove --force %s; rm -rf %s" % (target, target))
+        rc, out = sh("git -C /repo worktree add --detach %s HEAD" % target)
+        undo = "git -C /repo worktree remove --force %s; rm -rf %s" % (target, target)
+    rc, out = sh("git -C %s apply %s" % (target, patch))
     if rc == 0:
         try:
             for ck in checks:
                 t0 = time.time()
-                rc, out = sh("./check %s --tier %s" % (ck, tier), cwd=V)
+                rc, out = sh("VERIF_REPO=%s ./check %s --tier %s" % (target, ck, tier), cwd=V)
                 v = [l for l in out.splitlines() if l.startswith("VIOLATION") or l.startswith("  ")][:4]
                 res["checks"][ck] = {"exit": rc, "wall_s": round(time.time() - t0, 1), "lines": v}
-                res["ran"].append("git -C /repo apply patch.diff; ./check %s --tier %s; git -C /repo checkout -- ." % (ck, tier))
+                res["ran"].append("patch.diff applied to %s; VERIF_REPO=<that tree> ./check %s --tier %s" % ("/repo (undone afterwards)" if in_repo else "a scratch worktree of /repo", ck, tier))
         finally:
-            sh("git -C /repo checkout -- . && git -C /repo clean -fdq")
+            sh(undo)
     else:
         res["checks"]["apply_error"] = out[-400:]
+        sh(undo)
     dst = os.path.join(V, "seeded", name)
     os.makedirs(dst, exist_ok=True)
     for f in os.listdir(src):
